@@ -104,7 +104,16 @@ type zzCall struct {
 	Ctx    interface{}
 }
 
+type zzTypeCall struct {
+	Kind  string // "ResolveType" | "IsTypeOf"
+	Value interface{}
+	Info  ResolveInfo
+	Ctx   interface{}
+}
+
 type zzWorld struct {
+	returned  map[string]interface{} // response path -> value the resolver at that path returned (list elements: path/i)
+	typeCalls []zzTypeCall
 	calls    []zzCall
 	nextID   int
 	runtimeN string // runtime type for Node/U values: "Obj" or "Other"
@@ -171,6 +180,7 @@ func zzBuildSchema(w *zzWorld) Schema {
 	var uni *Union
 	objs := map[string]*Object{}
 	resolveType := func(p ResolveTypeParams) *Object {
+		w.typeCalls = append(w.typeCalls, zzTypeCall{Kind: "ResolveType", Value: p.Value, Info: p.Info, Ctx: p.Context})
 		if v, ok := p.Value.(zzObjVal); ok {
 			return objs[v.T]
 		}
@@ -214,7 +224,11 @@ func zzBuildSchema(w *zzWorld) Schema {
 				}
 				parent := ts.name
 				fs[f.name] = &Field{Type: t, Args: args, Resolve: func(p ResolveParams) (interface{}, error) {
-					w.calls = append(w.calls, zzCall{Parent: parent, Field: f.name, Path: zzPathString(p.Info.Path), Args: p.Args, Source: p.Source, Info: p.Info, Ctx: p.Context})
+					argsCopy := map[string]interface{}{}
+					for k, v := range p.Args {
+						argsCopy[k] = v
+					}
+					w.calls = append(w.calls, zzCall{Parent: parent, Field: f.name, Path: zzPathString(p.Info.Path), Args: argsCopy, Source: p.Source, Info: p.Info, Ctx: p.Context})
 					if w.hook != nil {
 						if v, err, handled := w.hook(parent, f.name, p); handled {
 							return v, err
@@ -240,6 +254,7 @@ func zzBuildSchema(w *zzWorld) Schema {
 		if w.useIsTypeOf && len(ts.implOf) > 0 {
 			tn := ts.name
 			cfg.IsTypeOf = func(p IsTypeOfParams) bool {
+				w.typeCalls = append(w.typeCalls, zzTypeCall{Kind: "IsTypeOf", Value: p.Value, Info: p.Info, Ctx: p.Context})
 				v, ok := p.Value.(zzObjVal)
 				return ok && v.T == tn
 			}
@@ -273,10 +288,18 @@ func (w *zzWorld) defaultResolve(parent string, f *zzFieldSpec, p ResolveParams)
 	if zzIsLeafType(f.typ) {
 		return zzLeafValue(parent, f.name, p.Args), nil
 	}
-	if f.list {
-		return []interface{}{mk(rt), mk(rt)}, nil
+	if w.returned == nil {
+		w.returned = map[string]interface{}{}
 	}
-	return mk(rt), nil
+	ps := zzPathString(p.Info.Path)
+	if f.list {
+		a, b := mk(rt), mk(rt)
+		w.returned[ps+"/0"], w.returned[ps+"/1"] = a, b
+		return []interface{}{a, b}, nil
+	}
+	v := mk(rt)
+	w.returned[ps] = v
+	return v, nil
 }
 
 // ---------------------------------------------------------------------------
